@@ -1110,6 +1110,9 @@ func createLowPass(st funcGen.Stack[Value], store []Value) (Value, error) {
 			a := math.Exp(-dt / tau)
 			yn := y*a + x*(1-a)
 			m, _ := p1.ToMap()
+			if _, ok := m.Get(name); ok {
+				return nil, fmt.Errorf("createLowPass: key '%s' already present in item", name)
+			}
 			return NewMap(AppendMap{key: name, value: Float(yn), parent: m}), nil
 		},
 		Args:   3,
@@ -1123,6 +1126,9 @@ func createLowPass(st funcGen.Stack[Value], store []Value) (Value, error) {
 				return nil, err
 			}
 			m, _ := p0.ToMap()
+			if _, ok := m.Get(name); ok {
+				return nil, fmt.Errorf("createLowPass: key '%s' already present in item", name)
+			}
 			return NewMap(AppendMap{key: name, value: x, parent: m}), nil
 		},
 		Args:   1,
